@@ -118,13 +118,17 @@ def size_of(q):
 
 
 def sub_queries(q):
-    """every strictly smaller query: proper subsets of the supplied fields (advanced),
-    or the same look-up without the (ignored) query_args (legacy)"""
+    """strictly smaller queries: the proper subsets of the supplied fields (advanced; for more
+    than six fields only the subsets of at most two), or the same look-up without the (ignored)
+    query_args (legacy)"""
     out = []
     if args_effective(q):
         fs = fields_of(q)
         n = len(fs)
         for mask in range(0, (1 << n) - 1):
+            # queries with many fields (defaults + one): only the sub-queries of at most two fields
+            if n > 6 and bin(mask).count("1") > 2:
+                continue
             sub = {fs[i]: q["args"][fs[i]] for i in range(n) if mask >> i & 1}
             out.append(dict(q, args=sub if sub else []))
     elif q["hasargs"]:
@@ -139,7 +143,8 @@ def ckey(log, active, q):
 # ------------------------------------------------------------------ run + validate
 def run_cases(cases, tag, cfgs):
     """cases: list of dict(log, active, q).  Executes them on the real code and validates the
-    trace.  Returns (viol: case index -> {monitor: info}, nonconfs, events_by_case, nlines)"""
+    trace (in chunks, one TLC process each).  Returns (viol: case index -> {monitor: info},
+    nonconfs, path of the ndjson trace, number of trace lines)"""
     groups = collections.OrderedDict()
     for i, c in enumerate(cases):
         k = json.dumps(c["log"], sort_keys=True)
@@ -150,7 +155,6 @@ def run_cases(cases, tag, cfgs):
     # split into chunks, each starting with the `log` line that is in force
     d = os.path.dirname(nd)
     chunks, cur, curlog, n = [], [], None, 0
-    obs = {}
     with open(nd) as f:
         for line in f:
             if not line.strip():
@@ -165,6 +169,8 @@ def run_cases(cases, tag, cfgs):
             cur.append(line)
     if cur:
         chunks.append(cur)
+    if n != len(cases) + len(groups):
+        raise ToolError("replay_query recorded %d lines for %d cases on %d logs" % (n, len(cases), len(groups)))
     paths = []
     for i, ch in enumerate(chunks):
         p = os.path.join(d, "chunk%04d.ndjson" % i)
@@ -201,11 +207,11 @@ def observed_of(nd, wanted):
     return out
 
 
-def mc_and_gen(cfg, dev, d, timeout):
+def mc_and_gen(cfg, dev, d, timeout, tier):
     name = cfg.replace(".cfg", "")
     path = instantiate(cfg, d, dev)
     # every CASE line is wanted (no sampling): common.run_tlc streams them into r["printed"]
-    r = run_tlc("MCTxQuery.tla", path, "mc_%s_%s" % (PROP, name), extra=["-seed", str(seed()), "-continue"], timeout=timeout,
+    r = run_tlc("MCTxQuery.tla", path, "mc_%s_%s_%s" % (PROP, tier, name), extra=["-seed", str(seed()), "-continue"], timeout=timeout,
                 keep_tags=("CASE",), max_keep=10 ** 9)
     bad = sorted(set(x for t in r["violated"] for x in t if x))
     if not r["completed"]:
@@ -226,7 +232,7 @@ def mc_and_gen(cfg, dev, d, timeout):
 def run(tier, replay_path, t0):
     build_s = build_harness(["replay_query"])
     dev = current_dev()
-    d = workdir("cfg_" + PROP)
+    d = workdir("cfg_%s_%s" % (PROP, tier))
     cfgs = write_cfgs(d, dev)
     log("  code model deviations switched on (known findings pending a fix): %s" % (dev or "none"))
 
@@ -236,7 +242,7 @@ def run(tier, replay_path, t0):
         cases = [dict(log=info["log"], active=info["active"], q=info["q"], mv=[], disc=[])]
     else:
         for cfg in TIERS[tier]:
-            st, cs = mc_and_gen(cfg, dev, d, 1200)
+            st, cs = mc_and_gen(cfg, dev, d, 1200, tier)
             log("  MC %s: %d states, %d transitions, %d cases emitted, %d model counter-examples (%.0fs)" % (
                 cfg, st["states"], st["transitions"], len(cs), sum(1 for c in cs if c["mv"]), st["wall_s"]))
             stats.append(st)
@@ -264,7 +270,7 @@ def run(tier, replay_path, t0):
             raise ToolError("vacuous suite: no generated case on which %s discriminates" % dead)
 
     t1 = time.time()
-    viol, nonconfs, nd, nlines = run_cases(cases, "main", cfgs)
+    viol, nonconfs, nd, nlines = run_cases(cases, tier + "_main", cfgs)
     log("  %d cases on %d logs executed on the real code and validated (%.0fs): %d cases break a monitor, %d Layer-M mismatches" % (
         len(cases), len(set(json.dumps(c["log"], sort_keys=True) for c in cases)), time.time() - t1, len(viol), len(nonconfs)))
 
@@ -286,7 +292,7 @@ def run(tier, replay_path, t0):
                     subs.append(dict(log=c["log"], active=c["active"], q=sq))
         sviol = {}
         if subs:
-            sviol, _, snd, _ = run_cases(subs, "shrink", cfgs)
+            sviol, _, snd, _ = run_cases(subs, tier + "_shrink", cfgs)
         log("  %d sub-queries of the violating cases re-run to find minimal inputs (%.0fs)" % (len(subs), time.time() - t2))
         best = {}      # key -> (size, |log|, case dict, monitor info)
         for i, ms in viol.items():
@@ -316,6 +322,7 @@ def run(tier, replay_path, t0):
     if nonconfs:
         log("NONCONFORMANCE: %d observed answers differ from the code model RunCode(dev=%s) (Layer M); first: %s" % (
             len(nonconfs), dev, json.dumps(nonconfs[0])[:600]))
+        log("  (the deviations of the code model follow the status of the keys %s in known_findings: after committing a fix set its keys to \"fixed\")" % sorted(DEVIATIONS.values()))
     samples_ids = list(range(0, len(cases), max(1, len(cases) // 6)))[:6]
     obs = observed_of(nd, set(samples_ids))
     samples = [{"log": cases[i]["log"], "active": cases[i]["active"], "q": cases[i]["q"],
@@ -327,7 +334,11 @@ def run(tier, replay_path, t0):
         "traces_validated_against_impl": len(cases),
         "samples": samples,
         "mc_configs": stats,
-        "exhaustive": bool(stats) and all(s["completed"] for s in stats),
+        # every MC configuration was explored completely, but the logs of more than one entry are a
+        # seeded sample of the log space, so the run as a whole is not an exhaustive enumeration
+        "exhaustive": False,
+        "mc_configs_completed": bool(stats) and all(s["completed"] for s in stats),
+        "exhaustive_subspaces": [s["cfg"] for s in stats if s["constants"].get("ExhaustOne") == "TRUE"],
         "logs": len(set(json.dumps(c["log"], sort_keys=True) for c in cases)),
         "trace_lines_validated": nlines,
         "cases_by_kind": dict(kinds),
